@@ -16,7 +16,8 @@ B1 = '{Leaf(V("a1"))}'
 CONFIGS = [
     # every mutating family, from empty registers
     cfg("core_all3", [ALLMUT] * 3),
-    cfg("core_q", [["construct", "assertions", "navigate", "wrap"]] * 4, inv=("WellFormedInv", "DeclaredDigestHonest", "RevealKeepsDigest", "C07Laws")),
+    cfg("core_t", [["construct", "assertions", "navigate", "wrap"]] * 4, inv=("WellFormedInv", "DeclaredDigestHonest", "RevealKeepsDigest", "C07Laws")),
+    cfg("core_q", [["construct", "assertions", "navigate", "wrap"]] * 4, atoms=("a1",), inv=("WellFormedInv", "DeclaredDigestHonest", "RevealKeepsDigest", "C07Laws")),
     # obscuring: all shapes x target subsets x modes x actions (+ a second obscuring call)
     cfg("obscure_q", [["build"], ["elide", "compress", "encrypt"]], nreg=1, maxsize=12, maxt=3,
         shapes="ShUpTo(%s, 5) \\cup NodeSubjectNodes(%s, 9)" % (B3, B2)),
